@@ -27,7 +27,7 @@ func init() {
 }
 
 func runC14(p *Prog, r *Report) {
-	r.Min("C14.R1", 3)
+	r.Min("C14.R1", 3+4)
 	r.Min("C14.R2", 5+2*2)
 	r.Min("C14.R3", 3)
 	r.Min("C14.R4", 5)
@@ -55,6 +55,19 @@ func runC14(p *Prog, r *Report) {
 	checkReadmeSamples(p, r)
 	checkDedup(p, r)
 	checkJSONWiring(p, r)
+	// lines appear in the order the results were produced: the result queue between the processors and
+	// the logger forwards in order, exactly once (C08.R3 copier clause re-evaluated)
+	{
+		sub := NewReport("C14x", "quick")
+		runC08(p, sub)
+		for _, o := range sub.Obs {
+			if o.Rule == "C08.R3" && strings.Contains(o.Construct, "NewResultChan") {
+				o2 := *o
+				o2.Rule = "C14.R1"
+				r.Obs = append(r.Obs, &o2)
+			}
+		}
+	}
 }
 
 func checkJSONWriter(p *Prog, r *Report) {
